@@ -5,7 +5,7 @@ use crate::{security::base64_decode, database::query_language::VariableType};
 use super::{
     data_model_parser::{DataModel, Entity, Field},
     parameter::Variables,
-    Error, FieldType, FieldValue, ParamValue,
+    unescape_string, Error, FieldType, FieldValue, ParamValue,
 };
 
 use pest::{iterators::{Pair, Pairs}, Parser};
@@ -850,7 +850,7 @@ impl QueryParser {
                                 }
                                 Rule::string => {
                                     let pair = val.into_inner().next().unwrap();
-                                    let value = pair.as_str().replace("\\\"", "\"");
+                                    let value = unescape_string(pair.as_str());
                                     parameters.fulltext_search = Some(FieldValue::Value(ParamValue::String(value.to_string())));
                                 }
                                 _=> unreachable!()
@@ -1171,7 +1171,7 @@ impl QueryParser {
             }
             Rule::string => {
                 let pair = value_pair.into_inner().next().unwrap();
-                let value = pair.as_str().replace("\\\"", "\"");
+                let value = unescape_string(pair.as_str());
                 FieldValue::Value(ParamValue::String(value))
             }
             Rule::variable => {
